@@ -15,6 +15,38 @@ var DefaultBufferSize = 4 * 1024 // 4KB
 type Buffer struct {
 	Underlying io.Writer
 	b          *bufio.Writer
+	checked    checkedWriter
+	checkedS   checkedStringWriter
+}
+
+// checkedWriter reports a write that the underlying writer accepted only in part
+// without returning an error as io.ErrShortWrite, as bufio.Writer does when it
+// flushes. Without it, bufio.Writer's path for large writes into an empty buffer
+// tries again with the rest, forever if the writer accepts nothing.
+type checkedWriter struct {
+	w io.Writer
+}
+
+func (c *checkedWriter) Write(p []byte) (n int, err error) {
+	n, err = c.w.Write(p)
+	if n < len(p) && err == nil {
+		err = io.ErrShortWrite
+	}
+	return n, err
+}
+
+// checkedStringWriter is the checkedWriter for an underlying io.StringWriter.
+type checkedStringWriter struct {
+	checkedWriter
+	sw io.StringWriter
+}
+
+func (c *checkedStringWriter) WriteString(s string) (n int, err error) {
+	n, err = c.sw.WriteString(s)
+	if n < len(s) && err == nil {
+		err = io.ErrShortWrite
+	}
+	return n, err
 }
 
 // Write the contents of p into the buffer.
@@ -48,7 +80,13 @@ func (b *Buffer) Reset(w io.Writer) {
 		b.b = bufio.NewWriterSize(b, DefaultBufferSize)
 	}
 	b.Underlying = w
-	b.b.Reset(w)
+	if sw, ok := w.(io.StringWriter); ok {
+		b.checkedS = checkedStringWriter{checkedWriter: checkedWriter{w: w}, sw: sw}
+		b.b.Reset(&b.checkedS)
+		return
+	}
+	b.checked = checkedWriter{w: w}
+	b.b.Reset(&b.checked)
 }
 
 // Size returns the size of the underlying buffer in bytes.
